@@ -36,7 +36,7 @@ pub fn alphabet() -> Vec<Call> {
     // per evaluator: the same expression with two placeholders, every looping / scratch-using construct with
     // two different arguments, and a failure at every stage (tokenizer, parser, evaluator top level,
     // a later argument of an aggregate)
-    vec![
+    let v = vec![
         c("f64", "@+1", &f(1.0)),
         c("f64", "@+1", &f(2.0)),
         c("f64", "med(30,10,20)", &f(0.0)),
@@ -117,7 +117,20 @@ pub fn alphabet() -> Vec<Call> {
         c("number", "1)", "I0"),
         c("number", "min(2,", "I0"),
         c("number", "(1+2)*3", "I0"),
-    ]
+    ];
+    // inputs far beyond 256 characters, succeeding and failing (buffers that are reused or resized between calls)
+    // (one long token each: the parsers clone the accumulated left operand per operator, so a chain of 2 600
+    // additions would cost seconds per call)
+    let long_ok = format!("{}1", "0".repeat(5000));
+    let long_bad = format!("{}#", "0".repeat(5000));
+    let long_ws = format!("1{}+1", " ".repeat(5000));
+    let mut v = v;
+    for (ev, at) in [("f64", f(0.0)), ("i64", "0".to_string()), ("decimal", d("0")), ("complex", cp(0.0, 0.0)), ("number", "I0".to_string())] {
+        v.push(c(ev, &long_ok, &at));
+        v.push(c(ev, &long_bad, &at));
+        v.push(c(ev, &long_ws, &at));
+    }
+    v
 }
 
 fn exec_dom<D: Dom>(expr: &str, at: &str) -> String {
@@ -198,7 +211,13 @@ pub fn replay_detail(detail: &serde_json::Value) -> Option<bool> {
 }
 
 fn show_call(call: &Call) -> String {
-    format!("eval_{}({:?}, {})", call.ev, call.expr, call.at)
+    let n = call.expr.chars().count();
+    if n > 100 {
+        let head: String = call.expr.chars().take(40).collect();
+        format!("eval_{}({:?}… [{} characters], {})", call.ev, head, n, call.at)
+    } else {
+        format!("eval_{}({:?}, {})", call.ev, call.expr, call.at)
+    }
 }
 
 /// `vx hist i j k ...`: run the calls in order in this (fresh) process and print one outcome per line
